@@ -20,6 +20,7 @@
 -/
 import GoBT.Props.C02
 import GoBT.Props.C03
+import GoBT.Sighash.LegacyCommit
 import GoBT.Interp.P2PKH
 import GoBT.Interp.P2PKHInsc
 namespace GoBT.C04
@@ -200,6 +201,41 @@ theorem legacy_ignores_spent_value (tx : Tx) (idx ht : Nat) (sc : Bytes) (f : In
     satoshiSpec tx idx ht sc := by
   unfold satoshiSpec
   simp only [C03.mapIdxFrom_map]
+
+/-- **Commitment (legacy algorithm).**  The legacy preimage is the standard serialisation of the modified transaction
+    `LegacyCommit.sigTx` (signed input carrying the script code, others blanked, NONE / SINGLE / ANYONECANPAY
+    truncations) followed by the hash type; the wire codec is injective (`C01.parse_serialize_std`), so two signing
+    contexts with the same preimage have the same modified transaction and the same 4-byte hash type.  With
+    `C03.legacy_preimage_eq_spec` (the code's preimage is `satoshiSpec`) and a collision-free double SHA-256 this is
+    "changing any part the hash type commits to changes the digest"; what `sigTx` drops — other inputs' scripts, every
+    previous-output value, under NONE the outputs, under ANYONECANPAY the other inputs — is what it does not commit to. -/
+theorem legacy_commits (tx tx' : Tx) (hwf : tx.wf) (hwf' : tx'.wf) (idx idx' ht ht' : Nat) (sc sc' : Bytes)
+    (hsc : sc.length < 2 ^ 64) (hsc' : sc'.length < 2 ^ 64)
+    (hidx : idx < tx.inputs.length) (hidx' : idx' < tx'.inputs.length)
+    (h : satoshiSpec tx idx ht sc = satoshiSpec tx' idx' ht' sc') :
+    LegacyCommit.sigTx tx idx ht sc = LegacyCommit.sigTx tx' idx' ht' sc' ∧ ht % 2 ^ 32 = ht' % 2 ^ 32 :=
+  LegacyCommit.legacy_commits tx tx' hwf hwf' idx idx' ht ht' sc sc' hsc hsc' hidx hidx' h
+
+/-- … spelled out for ALL without ANYONECANPAY: version, lock time, every output, every input's outpoint and sequence
+    number, and the script code are all determined by the preimage. -/
+theorem legacy_all_commits (tx tx' : Tx) (hwf : tx.wf) (hwf' : tx'.wf) (idx ht : Nat) (sc sc' : Bytes)
+    (hsc : sc.length < 2 ^ 64) (hsc' : sc'.length < 2 ^ 64)
+    (hidx : idx < tx.inputs.length) (hidx' : idx < tx'.inputs.length)
+    (hall : ht &&& 0x1f ≠ 2 ∧ ht &&& 0x1f ≠ 3) (hacp : ht &&& 0x80 = 0)
+    (h : satoshiSpec tx idx ht sc = satoshiSpec tx' idx ht sc') :
+    tx.version = tx'.version ∧ tx.lockTime = tx'.lockTime ∧ tx.outputs = tx'.outputs ∧
+    tx.inputs.map (fun i => (i.prevTxID, i.vout, i.sequence)) = tx'.inputs.map (fun i => (i.prevTxID, i.vout, i.sequence)) ∧
+    sc = sc' :=
+  LegacyCommit.legacy_all_commits tx tx' hwf hwf' idx ht sc sc' hsc hsc' hidx hidx' hall hacp h
+
+/-- the hypotheses are satisfiable, and the modified transaction is what the text says (one input, ALL) -/
+example :
+    let tx : Tx := { version := 1, inputs := [{ prevTxID := List.replicate 32 7, vout := 0, unlocking := some [0x51], sequence := 5 }],
+                     outputs := [{ sats := 9, script := [0x51] }], lockTime := 0 }
+    tx.wf ∧ 0 < tx.inputs.length ∧
+    LegacyCommit.sigTx tx 0 1 [0xac] =
+      { version := 1, inputs := [{ prevTxID := List.replicate 32 7, vout := 0, unlocking := some [0xac], sequence := 5 }],
+        outputs := [{ sats := 9, script := [0x51] }], lockTime := 0 } := by decide
 
 /-! ### a signed P2PKH input is accepted -/
 section Accept
